@@ -8,6 +8,8 @@ open KafVerif KafVerif.LfsHttp
 `par <part:n:len:fill:s3Fails | abort> …`   requests of the session that OVERLAP; the session lock serialises them in arrival order
 `init <size> <alg|-> <absent|right|wrong> <createFails> <plan>`      `part <n> <len> <fill> <s3Fails>`
 `complete <n:ok|bad|empty,…|-> <s3Fails> <broker>`      `abort`      `expire`
+`lifecycle-abort`   S3 drops the in-flight multipart upload behind the proxy's back (the id becomes unknown: NoSuchUpload)
+`par … abort complete/<list>/<s3Fails>/<broker>`   a completion that looked the session up before the abort deleted it
 broker = ack | code:<n> | nopartition | garbage | close | refuse -/
 
 def parseAlg (dflt : String) (s : String) : Alg :=
@@ -32,17 +34,40 @@ def parseFault (s0 : String) : S3Fault :=
   else if s.startsWith "part" then .part ((s.drop 4).toString.toNat?.getD 0)
   else .none
 
-def parseParReq (w : String) : Option Op :=
-  match w.splitOn ":" with
-  | ["part", n, len, fill, fails] => some (.part (n.toNat?.getD 0) ⟨fill.toNat?.getD 0, len.toNat?.getD 0⟩ (fails == "1"))
-  | ["abort"] => some .abort
-  | _ => none
-
 def parseList (s : String) : List (Nat × Etag) :=
   if s == "-" then [] else
   (s.splitOn ",").filterMap fun p => match p.splitOn ":" with
     | [n, e] => n.toNat?.map fun n => (n, if e == "ok" then Etag.ok else if e == "bad" then Etag.bad else Etag.empty)
     | _ => none
+
+def parseParReq (w : String) : Option Op :=
+  match w.splitOn "/" with
+  | ["complete", list, fails, broker] => some (.complete (parseList list) (fails == "1") (parseBroker broker))
+  | _ =>
+  match w.splitOn ":" with
+  | ["part", n, len, fill, fails] => some (.part (n.toNat?.getD 0) ⟨fill.toNat?.getD 0, len.toNat?.getD 0⟩ (fails == "1"))
+  | ["abort"] => some .abort
+  | _ => none
+
+/-- overlapping requests of one session (`par`).  A request looks the session up on arrival.  Once a request of the
+`par` is held inside S3 under the session lock (`gated`: an abort of an existing session, a part upload that passed
+its checks), every later request has looked the session up BEFORE any of them takes effect and parks on the mutex:
+they run in arrival order, on the session object they hold (`onHeld`: orphaned if an abort / a successful completion
+deleted it meanwhile).  While nothing is held, a request is answered before the next one arrives (`step`). -/
+def parRun (gated : Bool) (x : XSt) : List Op → XSt × List Out × Option Out
+  | [] => (x, [], none)
+  | o :: rest =>
+    let x0 : XSt := if gated then x else ⟨x.st, x.st.sess⟩
+    let g1 := gated || match o, x0.held with
+      | .abort, some _ => true
+      | .part n c _, some s => (partCheck s n c).isNone
+      | _, _ => false
+    let (x1, out) : XSt × Out := match o with
+      | .complete l f b => let r := onHeld x0.held x0.st (fun st => doComplete st l f b); (⟨r.1, x0.held⟩, r.2)
+      | .abort => let r := onHeld x0.held x0.st doAbort; (⟨r.1, x0.held⟩, r.2)
+      | o => let r := xstep x0 (.op o); (r.1, r.2)
+    let (x2, outs, c) := parRun g1 x1 rest
+    (x2, out :: outs, match o with | .complete .. => some out | _ => c)
 
 def showObj : Option (List Chunk) → String
   | none => "none"
@@ -79,9 +104,11 @@ def stepLine (σ : String × St) (ws : List String) : (String × St) × String :
     let r := step st (.complete (parseList list) (fails == "1") (parseBroker broker))
     ((dflt, r.1), sessLine "complete" r)
   | "par" :: reqs =>
-    let r := run step st (reqs.filterMap parseParReq)
-    let sts := ",".intercalate (r.2.map fun o => toString o.status)
-    ((dflt, r.1), s!"par status={sts} env=none sha_is_obj=na produced=false {showSess r.1.sess} obj={showObj r.1.object}")
+    let (x, outs, c) := parRun false ⟨st, none⟩ (reqs.filterMap parseParReq)
+    let sts := ",".intercalate (outs.map fun o => toString o.status)
+    let co : Out := c.getD ⟨0, none, false⟩
+    ((dflt, x.st), s!"par status={sts} {showEnv co.env x.st.object} produced={co.produced} {showSess x.st.sess} obj={showObj x.st.object}")
+  | ["lifecycle-abort"] => let r := doLifecycleAbort st; ((dflt, r.1), sessLine "lifecycle-abort" r)
   | ["abort"] => let r := step st .abort; ((dflt, r.1), sessLine "abort" r)
   | ["expire"] => let r := step st .expire; ((dflt, r.1), sessLine "expire" r)
   | _ => (σ, "bad-op")
